@@ -802,11 +802,11 @@ def run(ctx):
     known_probes(ctx)
     low_order_probe(ctx)
     vlib.log("[C12] probes %.1fs" % (time.time() - t0)); t0 = time.time()
-    run_traces(ctx, ctx.n(12, 60))
+    run_traces(ctx, ctx.n(12, 120))
     vlib.log("[C12] traces %.1fs" % (time.time() - t0)); t0 = time.time()
-    run_columns(ctx, ctx.n(6, 30))
+    run_columns(ctx, ctx.n(6, 40))
     vlib.log("[C12] columns %.1fs" % (time.time() - t0)); t0 = time.time()
-    n = ctx.n(14, 90)
+    n = ctx.n(14, 180)
     fams = ["zero", "first", "rev", "chain", "ramp", "zero_exhaust", "shipped", "shipped"]
     scs = [scenario(ctx.rng, fams[i] if i < len(fams) else None) for i in range(n)]
     if not ok:
